@@ -60,7 +60,8 @@ pub fn generate(s: &mut Session, tier: &str, rng: &mut Rng) {
                     let kind = *rng.pick(&KINDS);
                     let big = e.ends_with(" big");
                     let e = e.trim_end_matches(" big").to_owned();
-                    let up = if big { format!("{}", 150_000 + rng.below(400_000)) } else { sizes(rng, max_total) };
+                    // (over quic the whole upload fits the connection's flow-control window: make it several windows large)
+                    let up = if big { format!("{}", if *t == "quic" { 2_000_000 + rng.below(1_000_000) } else { 150_000 + rng.below(400_000) }) } else { sizes(rng, max_total) };
                     let pieces = up.split(',').count();
                     let e = e.replace("cut=K", &format!("cut={}", 1 + rng.below(pieces as u64)));
                     let host = if e.contains("unresolvable") { "localhost" } else { "127.0.0.1" };
